@@ -88,7 +88,8 @@ def num(x, nt):
 STATS = {"built": 0, "touched": 0, "fallback": 0, "siblings": 0, "via_negation": 0, "lifts_from_points_with_a_past": 0,
          "alias_moves": 0, "alias_reread_failed": 0, "lifts_with_caller_points_moved_afterwards": 0,
          "lifts_through_Parallelepiped_builder": 0, "results_moved_by_the_caller": 0, "moved_in_two_steps": 0,
-         "built_with_int_coordinates": 0, "built_with_Fraction_coordinates": 0, "segments_placed_by_item_assignment": 0}      # shared with props.common.HIST_STATS
+         "built_with_int_coordinates": 0, "built_with_Fraction_coordinates": 0, "segments_placed_by_item_assignment": 0,
+         "lifts_with_direction_vector_rescaled_afterwards": 0, "lifts_with_faces_moved_into_place": 0}      # shared with props.common.HIST_STATS
 
 
 def lift(d, rng=None, nt=float, form=None, past=None):
@@ -144,8 +145,32 @@ def lift(d, rng=None, nt=float, form=None, past=None):
                     pass
         return o
 
+    dirvecs = []
+
     def Vv(p):
         return G.Vector(num(p[0], nt), num(p[1], nt), num(p[2], nt))
+
+    def Dv(p):
+        """a direction / normal Vector the caller keeps and may rescale afterwards (see rescaled())"""
+        v = Vv(p)
+        dirvecs.append((v, p))
+        return v
+
+    def rescaled(o):
+        """the caller doubles its own direction / normal Vector in place after the object was built from it: whether
+        the object keeps a copy or follows the caller's Vector, it denotes the same set (same direction)"""
+        if r is None or not dirvecs:
+            return o
+        unit = any(K.dot(p, p) == 1 for _v, p in dirvecs)
+        if r.random() < (0.5 if unit else 0.05):
+            STATS["lifts_with_direction_vector_rescaled_afterwards"] += 1
+            for v, _p in dirvecs:
+                try:
+                    for i in range(3):
+                        v[i] = v[i] * 2
+                except Exception:
+                    pass
+        return o
     if k == "P":
         return P(d[1])
     if k == "VEC":
@@ -153,14 +178,14 @@ def lift(d, rng=None, nt=float, form=None, past=None):
     if k == "L":
         f = form if form is not None else (r.randrange(3) if r else 0)
         if f == 0:
-            return done(G.Line(P(d[1]), Vv(d[2])))
+            return rescaled(done(G.Line(P(d[1]), Dv(d[2]))))
         if f == 1:
             return done(G.Line(P(d[1]), P(K.add(d[1], d[2]))))
-        return G.Line(Vv(d[1]), Vv(d[2]))
+        return rescaled(G.Line(Vv(d[1]), Dv(d[2])))
     if k == "H":
         f = form if form is not None else (r.randrange(2) if r else 0)
         if f == 0:
-            return done(G.HalfLine(P(d[1]), Vv(d[2])))
+            return rescaled(done(G.HalfLine(P(d[1]), Dv(d[2]))))
         return done(G.HalfLine(P(d[1]), P(K.add(d[1], d[2]))))
     if k == "S":
         f = form if form is not None else (r.randrange(2) if r else 0)
@@ -170,7 +195,7 @@ def lift(d, rng=None, nt=float, form=None, past=None):
     if k == "PL":
         f = form if form is not None else (r.randrange(4) if r else 0)
         if f == 0:
-            return G.Plane(P(d[1]), Vv(d[2]))
+            return rescaled(G.Plane(P(d[1]), Dv(d[2])))
         if f == 3:
             # general form a x + b y + c z = d with the (non-unit) exact coefficients
             n = d[2]
@@ -207,6 +232,12 @@ def lift(d, rng=None, nt=float, form=None, past=None):
                 return G.Parallelepiped(P(base), *[Vv(e) for e in es])
         if r is not None:
             r.shuffle(faces)
+        premove = None
+        if r is not None and r.random() < 0.06:
+            STATS["lifts_with_faces_moved_into_place"] += 1
+            premove = tuple(F(r.randint(-6, 6), r.choice((1, 2))) for _ in range(3))
+            if nt is int:
+                premove = tuple(F(int(c)) for c in premove)
         polys = []
         for fc in faces:
             vs = list(fc)
@@ -215,7 +246,16 @@ def lift(d, rng=None, nt=float, form=None, past=None):
                 vs = vs[s:] + vs[:s]
                 if r.random() < 0.5:
                     vs.reverse()
-            fpg = G.ConvexPolygon(tuple(P(v) for v in vs))
+            if premove is not None and r.random() < 0.6:
+                # this face is built elsewhere, measured there and moved into place (the moved receiver is the face)
+                fpg = G.ConvexPolygon(tuple(P(K.sub(v, premove)) for v in vs))
+                try:
+                    fpg.area(), hash(fpg)
+                except Exception:
+                    pass
+                fpg.move(G.Vector(*[num(c, nt) for c in premove]))
+            else:
+                fpg = G.ConvexPolygon(tuple(P(v) for v in vs))
             if r is not None and r.random() < 0.08:
                 fpg = -fpg
             polys.append(fpg)
